@@ -102,7 +102,7 @@ func (p *wat2cWorker) buildFunc_body(w io.Writer, fn *ast.Func, cRetType string)
 	io.Copy(w, &bufIns)
 
 	// 有些函数最后的位置不是 return, 需要手动清理栈
-	switch tok := stk.LastInstruction().Token(); tok {
+	switch tok := fn.Body.List[len(fn.Body.List)-1].Token(); tok {
 	case token.INS_RETURN:
 		// 已经处理过了
 	case token.INS_UNREACHABLE:
